@@ -169,3 +169,43 @@ func VerifHarness_C19_EveryResourceType() {
 	verifrt.Assert(lit.URIString() == uri, "formatting-gives-the-reference-back")
 	verifrt.Reach("end")
 }
+
+// C19: a typed (strong) reference and the untyped URI reference naming the same resource parse to equal information
+// and compare as the same reference - for the resource types whose names exercise the member-name decoding
+// (one, two and three words; names ending in letters of "_id").
+func VerifHarness_C19_StrongAndWeakAgree() {
+	id := []string{"a1", "x"}[verifrt.Choose("id", 2)]
+	rid := &dtpb.ReferenceId{Value: id}
+	var strong *dtpb.Reference
+	typ := ""
+	switch verifrt.Choose("type", 8) {
+	case 0:
+		strong, typ = &dtpb.Reference{Reference: &dtpb.Reference_PatientId{PatientId: rid}}, "Patient"
+	case 1:
+		strong, typ = &dtpb.Reference{Reference: &dtpb.Reference_MedicinalProductManufacturedId{MedicinalProductManufacturedId: rid}}, "MedicinalProductManufactured"
+	case 2:
+		strong, typ = &dtpb.Reference{Reference: &dtpb.Reference_MedicinalProductPackagedId{MedicinalProductPackagedId: rid}}, "MedicinalProductPackaged"
+	case 3:
+		strong, typ = &dtpb.Reference{Reference: &dtpb.Reference_SubstanceNucleicAcidId{SubstanceNucleicAcidId: rid}}, "SubstanceNucleicAcid"
+	case 4:
+		strong, typ = &dtpb.Reference{Reference: &dtpb.Reference_ValueSetId{ValueSetId: rid}}, "ValueSet"
+	case 5:
+		strong, typ = &dtpb.Reference{Reference: &dtpb.Reference_PlanDefinitionId{PlanDefinitionId: rid}}, "PlanDefinition"
+	case 6:
+		strong, typ = &dtpb.Reference{Reference: &dtpb.Reference_AppointmentResponseId{AppointmentResponseId: rid}}, "AppointmentResponse"
+	default:
+		strong, typ = &dtpb.Reference{Reference: &dtpb.Reference_MedicationKnowledgeId{MedicationKnowledgeId: rid}}, "MedicationKnowledge"
+	}
+	verifrt.Tag("typeName", typ)
+	weak := &dtpb.Reference{Reference: &dtpb.Reference_Uri{Uri: &dtpb.String{Value: typ + "/" + id}}}
+	is, err := IdentityOf(strong)
+	iw, err2 := IdentityOf(weak)
+	verifrt.Assert(err == nil && err2 == nil, "both-forms-have-an-identity")
+	if err != nil || err2 != nil {
+		return
+	}
+	verifrt.Assert(is.Type() == iw.Type() && is.ID() == iw.ID(), "strong-and-weak-name-the-same-resource")
+	verifrt.Assert(string(is.Type()) == typ && is.ID() == id, "strong-reference-decodes-to-its-type-and-id")
+	verifrt.Assert(Is(strong, weak) && Is(weak, strong), "strong-and-weak-compare-as-the-same-reference")
+	verifrt.Reach("end")
+}
